@@ -213,14 +213,16 @@ def replay(path):
 
 MANIFEST = dict(
     category="proof",
-    technique="Lean 4 theorem (mutual induction: raising validator = pure validator) + differential correspondence",
+    technique="Lean 4 theorem (mutual induction: raising validator = pure validator) + differential correspondence"
+              " + validator translator (check programs extracted from the source, model = interpreter proved for all inputs)",
     text="validate_ok: the model of the validator with every Python raise point explicit never raises and equals the pure "
          "error-list function, for all schemas and all values (incl. nan, inf, huge ints, opaque objects, `...`); "
          "format_total: every error it produces renders (the formatter's only raise point, len(actual), is reached for "
          "sized values only); validateOrFail_spec: validate_or_fail returns True iff there are no errors and otherwise "
          "raises ValidationException with one rendered line per error. Tie: full error lists of model and code compared on "
          "generated (schema, value) cases each run; model-free oracle: no exception, non-empty messages, the "
-         "validate_or_fail contract, on the real code.",
+         "validate_or_fail contract, on the real code."
+         " Translator: the statement sequences of the scalar Validator.visit_* methods and of the container preludes are extracted from the source on every run (Gen/ValidatorProg.lean) and validateScalar_eq_extracted / listPrelude_eq_extracted / validateP_list_prelude prove the hand model equal to the interpreter on them for every input. Source pins: the normalised text of every anchor file is compared with the text the model was last validated against; a changed file is a broken obligation (no-failing-input-found unless the search finds an input).",
     note="Trusted: Lean kernel, axioms {propext, Classical.choice, Quot.sound}, the hand-written model (tied by sampling), "
          "wire codec, CPython built-ins not raising on standard data, re.search results shipped as a table. "
          "Formatter wording is not modelled; objects whose own special methods raise are excluded by the property.")
